@@ -1797,7 +1797,7 @@ S('c02-append-not-at-cursor', 'C02', FR,
   '''    def append(self, string):
         self.insert(self.current_offset, string)''',
   '''    def append(self, string):
-        self.insert(len(self.tobytes()), string)''', 'C02-in-order-concatenation')
+        self.insert(len(self.tobytes()), string)''', 'R8-append-at-cursor')
 B('c02-benign-assert-consistency-shape', 'C02', PK,
   '''        try:
             self.__class__.unpack(self.pack())
